@@ -89,8 +89,11 @@ def generate(rng, tier):
             plan.append({'dt': dtid, 'k': k, 'trace_frac': rng.random(), 'exc': rng.choice(TRACE_EXCS),
                          'trace_site': rng.choice(['d', 'd', 'p', 'x', 't', 'm', 'any'])})
         elif r2 < 0.45 and verbose >= 2:
-            plan.append({'dt': dtid, 'k': k, 'stream_write': rng.randint(0, 3),
-                         'exc': rng.choice(['BlockingIOError', 'UnicodeEncodeError', 'OSError'])})
+            if rng.random() < 0.3:
+                plan.append({'dt': dtid, 'k': k, 'stream_flush': 0})
+            else:
+                plan.append({'dt': dtid, 'k': k, 'stream_write': rng.randint(0, 3),
+                             'exc': rng.choice(['BlockingIOError', 'UnicodeEncodeError', 'OSError'])})
         else:
             p = rng.choice(pts)
             kind = rng.choice(COOP_KINDS)
